@@ -1,6 +1,6 @@
 CHECK = {
     "obligations": ["C12.c12_count", "C12.c12_teardown", "C12.c12_refuses", "C12.c12_timeout", "C12.c12_timeout_witness", "C12.c12_backlog_bounded", "C12.c12_conns",
-                    "C12.gen_structure", "C12.gen_timeout", "C12.gen_pipe_limit", "C12.gen_accept", "C12.gen_late_conn", "C12.gen_wake_all", "C12.c12_accept_drains_queue", "C12.c12_pinned_open_witness", "C12.c12_close_always_sweeps", "C12.c12_close_pinned_witness", "C12.gen_refusal", "C12.c12_refused_is_told",
+                    "C12.gen_structure", "C12.gen_timeout", "C12.gen_pipe_limit", "C12.gen_accept", "C12.gen_late_conn", "C12.gen_wake_all", "C12.c12_accept_drains_queue", "C12.c12_pinned_open_witness", "C12.c12_close_always_sweeps", "C12.c12_close_pinned_witness", "C12.gen_refusal", "C12.c12_refused_is_told", "C12.c12_refusal_events",
                     "C12L.c12_lock_order", "C12L.gen_rank_ordered", "C12L.gen_nontrivial", "C12L.ok_iff_ctx", "Locks.locks_rank_ordered_no_deadlock"],
     "lean_module": "CloakModel.Props.C12Locks",
     "scenarios": ["C12"],
